@@ -100,6 +100,7 @@ type SpecFile struct {
 	GhostMaps  map[string]*Decl
 	Aliases    map[string]string
 	SharedTypes map[string]bool
+	ChanInvs   map[string]*Clause
 	Immutable  map[string]bool
 }
 
@@ -112,7 +113,7 @@ type PredDecl struct {
 
 func NewSpecFile() *SpecFile {
 	return &SpecFile{Contracts: map[string]*Contract{}, Preds: map[string]*PredDecl{}, SpecFns: map[string]*Decl{},
-		Properties: map[string]*PropertyDecl{}, Unsync: map[string]string{}, FuncTypes: map[string]*Contract{}, GhostMaps: map[string]*Decl{}, Aliases: map[string]string{}, SharedTypes: map[string]bool{}, Immutable: map[string]bool{}}
+		Properties: map[string]*PropertyDecl{}, Unsync: map[string]string{}, FuncTypes: map[string]*Contract{}, GhostMaps: map[string]*Decl{}, Aliases: map[string]string{}, SharedTypes: map[string]bool{}, ChanInvs: map[string]*Clause{}, Immutable: map[string]bool{}}
 }
 
 // ---------- lexer ----------
@@ -545,6 +546,18 @@ func (sf *SpecFile) ParseText(path, text string) error {
 				}
 			}
 			sf.SpecFns[name] = &Decl{Name: name, Args: args, Res: strings.TrimSpace(rest[j+1:])}
+			cur = nil
+		case "chaninv":
+			// chaninv wsConn.readError: $val != nil [tags]
+			parts := strings.SplitN(rest, ":", 2)
+			if len(parts) != 2 {
+				return errf("bad chaninv")
+			}
+			cl, err := parseClause(strings.TrimSpace(parts[1]))
+			if err != nil {
+				return errf("%v", err)
+			}
+			sf.ChanInvs[strings.TrimSpace(parts[0])] = &cl
 			cur = nil
 		case "sharedtype":
 			sf.SharedTypes[strings.TrimSpace(rest)] = true
